@@ -1,7 +1,7 @@
 (* GENERATED on every run by harness/translate/pysrc.py from the Python sources of the tree
    under test — do not edit.  Each definition is the translation of one function's source text;
    Proofs/GenEq*.v prove it equal to the hand-written model for all inputs. *)
-From CG Require Import Model.Loop Model.Recur Model.Cache.
+From CG Require Import Model.Slice Model.Loop Model.Recur Model.Cache.
 
 
 (* calgebra/interval.py: Interval.finite_start *)
@@ -348,6 +348,7 @@ Definition g_cache_purge_sink (self_sink : list ivl) (start : Z) (end_ : Z) : (l
 
 (* calgebra/cache.py: CachedTimeline._fill_gap *)
 Definition g_cache_fill_gap_clip {KEYS : Type} (self_sink : list ivl) (self_key_validated : bool) (self_key_fields : option KEYS) (source_fetch : option Z -> option Z -> bool -> list ivl) (gap_start : Z) (gap_end : Z) : (list ivl * bool) :=
+  let fetched := (source_fetch (Some gap_start) (Some gap_end) false) in
   iter_for
     (fun '(self_sink, self_key_validated) ivl_ =>
       let self_key_validated :=
@@ -393,7 +394,7 @@ Definition g_cache_fill_gap_clip {KEYS : Type} (self_sink : list ivl) (self_key_
         (SCont (self_sink, self_key_validated)))
     (fun '(self_sink, self_key_validated) =>
       (self_sink, self_key_validated))
-    (self_sink, self_key_validated) (source_fetch (Some gap_start) (Some gap_end) false).
+    (self_sink, self_key_validated) fetched.
 
 (* calgebra/cache.py: CachedTimeline._evict_expired *)
 Definition g_cache_evict_expired (fuel : nat) (clock_now : Z) (self_expiry_heap : list hent) (self_cover : list cov) (self_sink : list ivl) : res (list hent * list cov * list ivl) :=
@@ -694,3 +695,193 @@ Definition g_inter_sweep (fuel : nat) (streams : list (list ivl)) (emit_indices 
           let out := @nil ivl in
           out)
         states.
+
+(* calgebra/core.py: Intersection.fetch *)
+Definition g_inter_fetch {TL : Type} (fuel : nat) (self_sources : list TL) (tl_is_mask : TL -> bool) (tl_fetch : TL -> option Z -> option Z -> bool -> list ivl) (start : option Z) (end_ : option Z) (reverse : bool) : res (list ivl) :=
+  if (negb (nonempty self_sources)) then
+    (RDone (@nil ivl))
+  else
+    let mask_sources := (map (fun s => (tl_is_mask s)) self_sources) in
+    let emit_indices :=
+      if (forallb (fun b_ => b_) mask_sources) then
+        let emit_indices := (fs_of_list [0]) in
+        emit_indices
+      else
+        if (existsb (fun b_ => b_) mask_sources) then
+          let emit_indices := (fs_of_list (map (fun '(i, is_mask) => i) (filter (fun '(i, is_mask) => (negb is_mask)) (py_enumerate mask_sources)))) in
+          emit_indices
+        else
+          let emit_indices := (fs_of_list (zrange (Z.of_nat (length self_sources)))) in
+          emit_indices in
+    if reverse then
+      let streams := (map (fun s => (g_negate_stream (tl_fetch s start end_ true))) self_sources) in
+      res_bind (g_inter_sweep fuel streams emit_indices) (fun r1_ =>
+      (RDone (g_negate_stream r1_)))
+    else
+      let streams := (map (fun s => (tl_fetch s start end_ false)) self_sources) in
+      res_bind (g_inter_sweep fuel streams emit_indices) (fun r2_ =>
+      (RDone r2_)).
+
+(* calgebra/core.py: Timeline._coerce_bound *)
+Definition g_coerce_bound (bound_ : bound) : res (option Z) :=
+  match bound_ with
+  | BNone =>
+    (RDone None)
+  | BInt bound__z =>
+    (RDone (Some bound__z))
+  | BAware bound__t bound__zone =>
+    (RDone (Some bound__t))
+  | BNaive =>
+    (RRaise TypeError)
+  | BOther =>
+    (RRaise TypeError)
+  end.
+
+(* calgebra/core.py: Timeline.__getitem__ *)
+Definition g_getitem (self_fetch : option Z -> option Z -> bool -> list ivl) (clipped_fetch : option Z -> option Z -> bool -> list ivl) (item_start : bound) (item_stop : bound) (item_step : stepv) : res (list ivl) :=
+  res_bind (g_coerce_bound item_start) (fun r1_ =>
+  let start := r1_ in
+  res_bind (g_coerce_bound item_stop) (fun r2_ =>
+  let end_bound := r2_ in
+  let step_ := item_step in
+  match step_ with
+  | SNone =>
+    let reverse := false in
+    let end_ := end_bound in
+    let '(start, end_) :=
+      if ((negb (is_none start)) && (negb (is_none end_)) && ((ozd start) >? (ozd end_))) then
+        let '(start, end_) := (end_, start) in
+        (start, end_)
+      else
+        (start, end_) in
+    if ((is_none start) && (is_none end_)) then
+      (RDone (self_fetch start end_ reverse))
+    else
+      (RDone (clipped_fetch start end_ reverse))
+  | SInt step__z =>
+    if (negb (zmem step__z [1; (-1)])) then
+      (RRaise ValueError)
+    else
+      let reverse := (step__z =? (-1)) in
+      let end_ := end_bound in
+      let '(start, end_) :=
+        if ((negb (is_none start)) && (negb (is_none end_)) && ((ozd start) >? (ozd end_))) then
+          let '(start, end_) := (end_, start) in
+          (start, end_)
+        else
+          (start, end_) in
+      if ((is_none start) && (is_none end_)) then
+        (RDone (self_fetch start end_ reverse))
+      else
+        (RDone (clipped_fetch start end_ reverse))
+  | SOther =>
+    (RRaise ValueError)
+  end)).
+
+(* calgebra/cache.py: CachedTimeline._stitch_at *)
+Definition g_cache_stitch_at {KEYS : Type} {KEY : Type} (self_key_fields : option KEYS) (get_key : ivl -> option KEY) (key_eqb : KEY -> KEY -> bool) (fresh_left : bool) (self_sink : list ivl) (point : Z) : (list ivl) :=
+  if (is_none self_key_fields) then
+    self_sink
+  else
+    let left_ := (filter (fun ivl_ => (oZ_eqb (en ivl_) (Some point))) (sink_overlapping self_sink (point - 1))) in
+    let right_ := (filter (fun ivl_ => (oZ_eqb (st ivl_) (Some point))) (sink_overlapping self_sink point)) in
+    if ((negb (nonempty left_)) || (negb (nonempty right_))) then
+      self_sink
+    else
+      let left_by_key := (dict_of (opt_eqb key_eqb) (fun ivl_ => (get_key ivl_)) (fun ivl_ => ivl_) left_) in
+      let right_by_key := (dict_of (opt_eqb key_eqb) (fun ivl_ => (get_key ivl_)) (fun ivl_ => ivl_) right_) in
+      iter_for
+        (fun self_sink key_ =>
+          if (is_none key_) then
+            (SCont self_sink)
+          else
+            let '(l_ivl, r_ivl) := ((dict_get (opt_eqb key_eqb) (mkI None None Plain) key_ left_by_key), (dict_get (opt_eqb key_eqb) (mkI None None Plain) key_ right_by_key)) in
+            let fresh := (if fresh_left then l_ivl else r_ivl) in
+            let merged := (set_span fresh (st l_ivl) (en r_ivl)) in
+            let self_sink := (sl_remove l_ivl self_sink) in
+            let self_sink := (sl_remove r_ivl self_sink) in
+            let self_sink := (sl_add merged self_sink) in
+            (SCont self_sink))
+        (fun self_sink =>
+          self_sink)
+        self_sink (keys_inter (opt_eqb key_eqb) left_by_key right_by_key).
+
+(* calgebra/cache.py: CachedTimeline._fill_gap *)
+Definition g_cache_fill_gap {KEYS : Type} {KEY : Type} (self_key_fields : option KEYS) (get_key : ivl -> option KEY) (key_eqb : KEY -> KEY -> bool) (source_fetch : option Z -> option Z -> bool -> list ivl) (self_ttl : Z) (clock_now : Z) (self_sink : list ivl) (self_key_validated : bool) (self_cover : list cov) (self_expiry_seq : N) (self_expiry_heap : list hent) (gap_start : Z) (gap_end : Z) : (list ivl * bool * list cov * N * list hent) :=
+  let fetched := (source_fetch (Some gap_start) (Some gap_end) false) in
+  iter_for
+    (fun '(self_sink, self_key_validated) ivl_ =>
+      let self_key_validated :=
+        if ((negb self_key_validated) && (negb (is_none self_key_fields))) then
+          let self_key_validated := true in
+          self_key_validated
+        else
+          self_key_validated in
+      let clipped_start := (st ivl_) in
+      let clipped_end := (en ivl_) in
+      let clipped_start :=
+        if ((is_none (st ivl_)) || ((ozd (st ivl_)) <? gap_start)) then
+          let clipped_start := gap_start in
+          (Some clipped_start)
+        else
+          clipped_start in
+      let clipped_end :=
+        if ((is_none (en ivl_)) || ((ozd (en ivl_)) >? gap_end)) then
+          let clipped_end := gap_end in
+          (Some clipped_end)
+        else
+          clipped_end in
+      if ((negb (is_none clipped_start)) && (negb (is_none clipped_end))) then
+        if ((ozd clipped_start) >=? (ozd clipped_end)) then
+          (SCont (self_sink, self_key_validated))
+        else
+          let ivl_ :=
+            if ((negb (oZ_eqb clipped_start (st ivl_))) || (negb (oZ_eqb clipped_end (en ivl_)))) then
+              let ivl_ := (set_span ivl_ clipped_start clipped_end) in
+              ivl_
+            else
+              ivl_ in
+          let self_sink := (sl_add ivl_ self_sink) in
+          (SCont (self_sink, self_key_validated))
+      else
+        let ivl_ :=
+          if ((negb (oZ_eqb clipped_start (st ivl_))) || (negb (oZ_eqb clipped_end (en ivl_)))) then
+            let ivl_ := (set_span ivl_ clipped_start clipped_end) in
+            ivl_
+          else
+            ivl_ in
+        let self_sink := (sl_add ivl_ self_sink) in
+        (SCont (self_sink, self_key_validated)))
+    (fun '(self_sink, self_key_validated) =>
+      let cover_ := (mkCov gap_start gap_end (clock_now)) in
+      let self_cover := (cov_add cover_ self_cover) in
+      let self_expiry_seq := (N_plus_Z self_expiry_seq 1) in
+      let self_expiry_heap := (heap_push (((cv_t cover_) + self_ttl), self_expiry_seq, cover_) self_expiry_heap) in
+      let self_sink := (g_cache_stitch_at self_key_fields get_key key_eqb false self_sink gap_start) in
+      let self_sink := (g_cache_stitch_at self_key_fields get_key key_eqb true self_sink gap_end) in
+      (self_sink, self_key_validated, self_cover, self_expiry_seq, self_expiry_heap))
+    (self_sink, self_key_validated) fetched.
+
+(* calgebra/cache.py: CachedTimeline._fetch_sink *)
+Definition g_cache_fetch_sink (self_sink : list ivl) (start : Z) (end_ : Z) (reverse : bool) : list ivl :=
+  let out := @nil ivl in
+  let out := out ++ (fetch_static self_sink (Some start) (Some end_) reverse) in
+  out.
+
+(* calgebra/cache.py: CachedTimeline.fetch *)
+Definition g_cache_fetch {KEYS : Type} {KEY : Type} (fuel : nat) (self_key_fields : option KEYS) (get_key : ivl -> option KEY) (key_eqb : KEY -> KEY -> bool) (source_fetch : option Z -> option Z -> bool -> list ivl) (self_ttl : Z) (tick : Z) (clock : Z) (self_sink : list ivl) (self_key_validated : bool) (self_cover : list cov) (self_expiry_seq : N) (self_expiry_heap : list hent) (start : option Z) (end_ : option Z) (reverse : bool) : res (Z * list ivl * bool * list cov * N * list hent * list ivl) :=
+  let out := @nil ivl in
+  if ((is_none start) || (is_none end_)) then
+    (RRaise ValueError)
+  else
+    res_bind (res_bind (g_cache_evict_expired fuel clock self_expiry_heap self_cover self_sink) (fun x_ => RDone (x_, clock + tick))) (fun '(self_expiry_heap, self_cover, self_sink, clock) =>
+    let query := tt in
+    iter_for
+      (fun '(self_sink, self_key_validated, self_cover, self_expiry_seq, self_expiry_heap, clock) gap_ =>
+        let '(self_sink, self_key_validated, self_cover, self_expiry_seq, self_expiry_heap, clock) := (g_cache_fill_gap self_key_fields get_key key_eqb source_fetch self_ttl clock self_sink self_key_validated self_cover self_expiry_seq self_expiry_heap (ozd (st gap_)) (ozd (en gap_)), clock + tick) in
+        (SCont (self_sink, self_key_validated, self_cover, self_expiry_seq, self_expiry_heap, clock)))
+      (fun '(self_sink, self_key_validated, self_cover, self_expiry_seq, self_expiry_heap, clock) =>
+        let result := (g_cache_fetch_sink self_sink (ozd start) (ozd end_) reverse) in
+        let out := out ++ result in
+        (RDone (clock, self_sink, self_key_validated, self_cover, self_expiry_seq, self_expiry_heap, out)))
+      (self_sink, self_key_validated, self_cover, self_expiry_seq, self_expiry_heap, clock) (gaps_of self_cover (ozd start) (ozd end_))).
